@@ -765,6 +765,42 @@ def run(facts):
                                         "buffer in between): copy first, release last" % b.loc(bad[1]), path="bb" + "->bb".join(str(x) for x in bad[0]))
         else:
             res.ok(key, b.loc(), "every read of the view precedes the release (or follows a take-over of the buffer)", nontrivial=True)
+    # ---- a live handle is never overwritten in place without being disposed -----------------------------------------
+    # `*self = other` drops the old value first (MIR Drop + assign); `ptr::write(self, other)` does not: whatever reference the
+    # old handle held is never given back. Accepted only when the old value was moved out / dropped in place before.
+    from .flow import cfg_of as _cfg_of
+    for b in facts.fn_bodies():
+        if facts.is_test(b):
+            continue
+        sites = []
+        for bi, t in b.calls():
+            if b.blocks[bi]["cleanup"]:
+                continue
+            fn = callee(t)
+            if fn is None or fn["name"] not in ("write", "write_unaligned", "write_volatile") or "ptr" not in (fn.get("res") or fn).get("path", ""):
+                continue
+            targs = " ".join(str(x) for x in (fn.get("args") or ()))
+            if not any(h in targs for h in a2.handles):
+                continue
+            sites.append((bi, t))
+        if not sites:
+            continue
+        eb = ExprBuilder(b, facts, inline=True)
+        cfg = _cfg_of(b)
+        for (bi, t) in sites:
+            dst = canon(eb.operand(t["args"][0], (bi, len(b.blocks[bi]["stmts"]))))
+            moved_out = False
+            for bj, t2 in b.calls():
+                fn2 = callee(t2)
+                if fn2 and fn2["name"] in ("read", "drop_in_place", "replace", "take", "read_unaligned") and bj != bi and cfg.dominates(bj, bi) and t2["args"]:
+                    if canon(eb.operand(t2["args"][0], (bj, len(b.blocks[bj]["stmts"])))) == dst:
+                        moved_out = True
+            key = "%s|handle overwritten in place" % b.id
+            if moved_out or not any(x[0] == "param" for x in walk(dst) if isinstance(x, tuple) and x):
+                res.ok(key, b.loc(bi), "the old value was moved out / dropped before ptr::write (or the destination is fresh memory)", nontrivial=True)
+            else:
+                res.bad(key, b.loc(bi), "ptr::write overwrites the handle at `%s` without dropping it: the reference (or the whole buffer) the old handle "
+                                        "held is never released - `*dst = value` would drop it first" % fmt_expr(dst)[:60])
     res.floor("release_last_functions", n_rl, 4)
     res.floor("paths", n_paths, 60)
     res.floor("vtables", len(a2.vts), 6)
